@@ -378,6 +378,12 @@ func (c *client) setupRequestChan() chan clientRequest {
 				ctxDone = nil
 				vhook("call.ctxdone", nil, "a", cr.ready, "id", cr.req.ID)
 
+				if cr.req.ID == nil {
+					// a notification: the peer keeps nothing under an id that could be
+					// cancelled; the write is acknowledged by the connection routine
+					continue
+				}
+
 				rp, err := json.Marshal([]param{{v: reflect.ValueOf(cr.req.ID)}})
 				if err != nil {
 					return clientResponse{}, xerrors.Errorf("marshalling cancel request: %w", err)
